@@ -66,6 +66,31 @@ def _cases(tier):
             if n == 3 and tier == "quick" and not all(isinstance(list(x[1]["pos"].values())[0] if isinstance(x[1]["pos"], dict) else 1, (int, float)) for x in S):
                 continue
             yield {"set": list(S), "L": 3, "merge": "default"}
+    # literal sets at the documented size limit (15 values): repeating a sample, or adding one that only repeats seen values, must not
+    # change whether the position is a Literal
+    pool = [f"v{i:02d}" for i in range(17)]
+    for n in (14, 15, 16):
+        whole = ["J", {"a": pool[:n]}]
+        halves = [["J", {"a": pool[:n // 2 + 1]}], ["J", {"a": pool[n // 2:n]}]]
+        again = ["J", {"a": [pool[0], pool[n - 1]]}]
+        yield {"set": [whole], "L": 3, "merge": "default"}
+        yield {"set": [whole, again], "L": 3, "merge": "default"}
+        yield {"set": halves, "L": 3, "merge": "default"}
+        yield {"set": halves + [again], "L": 4, "merge": "default"}
+        yield {"set": [["J", {"a": v}] for v in pool[:n]][:3] + [["J", {"a": pool[3:n]}]], "L": 5, "merge": "default"}
+    # the same limit through scalar observations: n records with n distinct values, one record given twice at every position
+    # (a chosen family of sequences instead of all of them: the support is too large to enumerate)
+    for n in (9, 10, 11, 14, 15, 16):
+        recs = [["J", {"id": i, "status": pool[i]}] for i in range(n)]
+        base = list(range(n))
+        seqs = [base, base[::-1]]
+        for rep in (0, n // 2, n - 1):
+            for pos in (rep + 1, n // 2 + 1, n):
+                q = list(base)
+                q.insert(pos, rep)
+                seqs += [q, q[::-1]]
+        seqs.append(base + base)
+        yield {"set": recs, "seqs": seqs, "L": 0, "merge": "default"}
     gs = [["G", g] for g in GRAPH_OBJS]
     for merge in merges:
         for n in range(1, gL + 1):
@@ -96,7 +121,7 @@ def execute(case):
     outcomes = {}
     n_exec = 0
     import copy
-    for seq in _seqs(len(S), case["L"]):
+    for seq in (case["seqs"] if "seqs" in case else _seqs(len(S), case["L"])):
         o = _observe([copy.deepcopy(objs[i]) for i in seq], case)
         n_exec += 1
         outcomes.setdefault(o, []).append(seq)
@@ -118,7 +143,7 @@ def execute(case):
 def run(tier, seed):
     r = core.Run(PROP, tier, seed)
     r.rule = ("E1 grouped by support set: every set of <=3 (quick) / <=4 (thorough) distinct samples from the object alphabet, "
-              "all sequences of length <=3/<=4 with exactly that support, one canonical graph required per set; plus sets of "
+              "all sequences of length <=3/<=4 with exactly that support, one canonical graph required per set; record sets at the literal limit with a repeated record at chosen positions; plus sets of "
               "graph-shaped objects x merge policies; non-trivial = support sets with >=2 distinct samples (distinct first outcome)")
     r.bounds = {"tier": tier}
     r.assumptions = ["canonical form ignores field order, union member order, class names and index strings only"]
